@@ -5,7 +5,8 @@
 From Coq Require Import String.
 From Coq Require Import List NArith ZArith Bool.
 From P9 Require Import Base.Res Base.Sexp Model.Path Model.Ramfs.
-From P9 Require Import Proofs.RamfsProofs Proofs.RamfsProofsRef Proofs.RamfsProofsInv Proofs.RamfsProofsStep Proofs.RamfsProofsSpec.
+From P9 Require Import Proofs.RamfsProofs Proofs.RamfsProofsRef Proofs.RamfsProofsInv Proofs.RamfsProofsStep Proofs.RamfsProofsSpec Proofs.RamfsProofsLocks.
+From P9 Require Import Gen.GenRamfsLocks.
 Import ListNotations.
 Open Scope Z_scope.
 
@@ -120,3 +121,21 @@ Theorem C18_listing : forall s h l, fh_opendir s h = Ok l ->
     dd = n_info (getn s (last (h_parents h) (h_ent h))).
 Proof. exact fh_opendir_listing. Qed.
 Print Assumptions C18_listing.
+
+(* ---- concurrent sessions: lock discipline of the CURRENT source of /repo/ramfs.
+   [ramfs_accesses] is regenerated from the source on every run (translator
+   harness/cmd/gen/ramfslocks.go): one entry per access to FileEnt.nref /
+   .children / .Info / .Data or fServer.lastpath, with how it is protected at
+   that program point ("lock": the entry's mutex is held; "atomic"; "fresh": the
+   object is not yet published; "NONE").  Data-race freedom in the Go memory
+   model's sense is not expressible here; this is the lockset discipline that
+   implies it for these fields, and the -race runs of the harness search for
+   counterexamples (design/C18.md). *)
+Theorem C18_lockset : Forall (fun a => la_how a <> "NONE"%string) ramfs_accesses.
+Proof. exact lockset_holds. Qed.
+Print Assumptions C18_lockset.
+
+Example C18_lockset_nonvacuous :
+  forallb (fun f => existsb (fun a => String.eqb (la_field a) f) ramfs_accesses)
+          ["nref"; "children"; "Info"; "Data"; "lastpath"]%string = true.
+Proof. exact lockset_covers. Qed.
